@@ -218,6 +218,13 @@ def run(ctx):
                             o.violated(cj, src, "zero columns are determined from a subset of the rows")
                         else:
                             o.undecided(f"index list `{txt(src)}` not recognised", cj, src)
+        elif not dels and jds_name and any(isinstance(n, ast.Call) and isinstance(n.func, ast.Attribute) and n.func.attr == "remove" and len(n.args) == 1
+                                           and isinstance(n.args[0], ast.Subscript) and txt(n.args[0].value) == txt(n.func.value) for n in astx.walk_fn(cj.node)):
+            rm_ = [n for n in astx.walk_fn(cj.node) if isinstance(n, ast.Call) and isinstance(n.func, ast.Attribute) and n.func.attr == "remove" and len(n.args) == 1
+                   and isinstance(n.args[0], ast.Subscript) and txt(n.args[0].value) == txt(n.func.value)][0]
+            o3.violated(cj, rm_, f"`{txt(rm_)}` removes the FIRST entry equal to the value at that position, not the entry AT that position: when an earlier column holds the same "
+                                 "count (typically another 0) the wrong column disappears", shape_free=True)
+            o.undecided("see C08.3", cj)
         elif not dels and jds_name and _column_map(sc, augs[0]) is not None:
             # no column is ever removed: the columns are allotted up front, one per clique size that occurs, through a
             # size -> column table.  Column k must then be the k-th SMALLEST occurring size (that is what _motif_sizes says).
